@@ -35,7 +35,7 @@ ASSUMPTIONS = [
     "the textual layout of the tag is not fixed: containment of trace id / name / identifier plus the exact message suffix",
     "an explicitly empty trace id '' counts as 'not given'",
 ]
-REQUIRED_CLASSES = ["override-logger", "override-trace", "inherit-2-levels", "percent-in-name", "args", "outside-any-scope", "spawned-task"]
+REQUIRED_CLASSES = ["override-logger", "override-trace", "inherit-2-levels", "percent-in-name", "args", "mapping-argument", "outside-any-scope", "spawned-task"]
 
 SINK: list = []
 _HANDLER = P.Capture(SINK)
@@ -138,7 +138,9 @@ def run_case(case) -> Outcome:
             out.violate("logger", f"C19.logger/emitted-{len(mine)}-times", f"{token} on {names}")
             continue
         r, msg, err = mine[0]
-        expected_text = (e["fmt"] % e["args"]) if e["args"] else e["fmt"]
+        expected_text = P.log_text(e["fmt"], e["args"])
+        if e["args"] and isinstance(e["args"][0], dict):
+            classes.add("mapping-argument")
         if err is not None:
             out.violate(
                 "lost",
@@ -193,10 +195,11 @@ def strategy(tier):
         st.tuples(st.just("r"), val),
     ).map(list)
     logop = st.builds(
-        lambda lv, f, x: {"k": "log", "level": lv, "fmt": f, "exc": x},
+        lambda lv, f, x, m: {"k": "log", "level": lv, "fmt": f, "exc": x, "mapping": m},
         st.sampled_from(["debug", "info", "warning", "error"]),
         st.lists(seg, min_size=0, max_size=4),
         st.booleans(),
+        st.sampled_from([False, False, False, True]),  # arguments as ONE mapping with %(name)s keys
     )
     sleep = st.builds(lambda t: {"k": "sleep", "t": t}, st.sampled_from([0.25, 0.5]))
     trace = st.one_of(st.none(), st.none(), st.sampled_from(["t-1", "trace%s", "", "T2"]))
